@@ -102,7 +102,14 @@ func main() {
 			Type: &ast.FuncType{Params: &ast.FieldList{}},
 			Body: &ast.BlockStmt{List: []ast.Stmt{&ast.ExprStmt{X: inner}}},
 		}
-		stmts = append(stmts, &ast.ExprStmt{X: &ast.CallExpr{Fun: sel("Spawn"), Args: []ast.Expr{label(g.Pos()), body}}})
+		spawnArgs := []ast.Expr{label(g.Pos()), body}
+		for _, a := range args {
+			if call.Ellipsis != token.NoPos && a == args[len(args)-1] {
+				break
+			}
+			spawnArgs = append(spawnArgs, a)
+		}
+		stmts = append(stmts, &ast.ExprStmt{X: &ast.CallExpr{Fun: sel("Spawn"), Args: spawnArgs}})
 
 		return &ast.BlockStmt{List: stmts}
 	}
